@@ -65,6 +65,8 @@ def classify(exc) -> str:
         return "parser_error:" + type(exc).__name__
     if isinstance(exc, errors.RendererError):
         return "renderer_error:" + type(exc).__name__
+    if isinstance(exc, errors.Error) and not isinstance(exc, errors.InternalError):
+        return "reported_error:" + type(exc).__name__
     if isinstance(exc, OSError):
         import errno
 
@@ -158,7 +160,9 @@ def one(req: dict, variant: str) -> dict:
                 sys.argv = argv
                 from bitproto._main import run_bitproto
 
-                run_bitproto()
+                ret = run_bitproto()
+                if ret not in (None, 0):
+                    outcome = "sysexit:%s" % (ret,)  # what `sys.exit(run_bitproto())` would do
         except BaseException as e:  # noqa
             outcome = classify(e)
         finally:
